@@ -67,7 +67,7 @@ contract(FN, "Node.replace", {"self": "Node", "from_": "int", "to": "int", "slic
          may_raise={"ValueError": "True", "ReplaceError": "True"},
          # out-of-range positions are reported, never indexed with; a deeply valid document stays deeply valid
          ensures=["0 <= from_ and from_ <= self.content.size and 0 <= to and to <= self.content.size",
-                  f"dvalid(self) and not self.type.is_text and {PAYLOAD} ==> dvalid(result)", "result.type == self.type"],
+                  f"dvalid(self) and not self.type.is_text and {PAYLOAD} and prep_valid(slice, self, from_) ==> dvalid(result)", "result.type == self.type"],
          props=P + ["C02"])
 
 # ---- step results
@@ -75,7 +75,7 @@ contract(FST, "StepResult.from_replace", {"doc": "Node", "from_": "int", "to": "
          # a ReplaceError becomes a failed result; only an out-of-range position may raise (ValueError)
          may_raise={"ValueError": "True"},
          ensures=["(result.failed is None) == (result.doc is not None)",
-                  f"dvalid(doc) and not doc.type.is_text and {PAYLOAD} and result.doc is not None ==> dvalid(result.doc)"],
+                  f"dvalid(doc) and not doc.type.is_text and {PAYLOAD} and prep_valid(slice, doc, from_) and result.doc is not None ==> dvalid(result.doc)"],
          props=P)
 
 contract(FRS, "content_between", {"doc": "Node", "from_": "int", "to": "int"}, returns="bool",
@@ -133,7 +133,8 @@ contract(FRS, "ReplaceStep.apply", {"self": "ReplaceStep", "doc": "Node"}, retur
                   # a structure step never overwrites content
                   f"({STRUCT_RS}) ==> result.failed is not None",
                   # C01 for replace steps: from a deeply valid document and a payload-valid slice, a step that does not fail yields a deeply valid document
-                  "dvalid(doc) and not doc.type.is_text and implies(self.slice.open_start == 0 and self.slice.open_end == 0, fvalid(self.slice.content.content)) and result.doc is not None ==> dvalid(result.doc)"],
+                  "dvalid(doc) and not doc.type.is_text and implies(self.slice.open_start == 0 and self.slice.open_end == 0, fvalid(self.slice.content.content))"
+                  " and prep_valid(self.slice, doc, self.from_) and result.doc is not None ==> dvalid(result.doc)"],
          props=P)
 contract(FRS, "ReplaceAroundStep.apply", {"self": "ReplaceAroundStep", "doc": "Node"}, returns="StepResult",
          may_raise={"ValueError": "True"},
@@ -261,20 +262,40 @@ lemma("rp-at-boundary", {"rp": "ResolvedPos"},
 
 
 # ---- replace_outer: every node of the document replace returns is valid
+abstract("prep_valid", ["Slice", "Node", "int"], "bool")
+EXTRA = "(along.depth - slice.open_start)"
 contract(FR, "prepare_slice_for_replace", {"slice": "Slice", "along": "ResolvedPos"}, returns="dict{start:ResolvedPos,end:ResolvedPos}",
+         requires=["slice.open_start >= 0", "slice.open_start <= along.depth", "odfit(slice)"],
          may_raise={"ValueError": "True"},
-         trusted="C02 (bounded): wraps the slice content in copies of the ancestors of the insertion point and resolves the two open ends in it", props=P)
-contract(FR, "replace_three_way", {"from_": "ResolvedPos", "start": "ResolvedPos", "end": "ResolvedPos", "to": "ResolvedPos", "depth": "int"}, returns="Fragment",
-         may_raise={"ReplaceError": "True", "ValueError": "True"},
-         ensures=["dvalid(rp_node(from_, 0)) and not rp_node(from_, 0).type.is_text ==> fvalid(result.content)"],
-         trusted="C01 / C02 (bounded): the three-way rebuild around an open or non-flat slice; that every node it returns is deeply valid is ASSUMED here for payload-valid slices "
-                 "(every node it builds around new content goes through close, which is proved; nodes taken from the slice are valid by the payload precondition) and checked by the bounded oracle",
+         ensures=["result['start'].depth == along.depth", "result['end'].depth == along.depth - slice.open_start + slice.open_end",
+                  f"all_(0, {EXTRA} + 1, lambda k: rp_node(result['start'], k) == rp_node(result['end'], k))",
+                  "not rp_node(result['start'], 0).type.is_text"],
+         defines=["dvalid(rp_node(result['start'], 0)) == prep_valid(slice, rp_node(along, 0), along.pos)"],
+         trusted="C02 (bounded, and evaluated natively on every call of the workload): the slice content is wrapped in copies of the ancestors of the insertion point; its two open ends resolve "
+                 "to positions as deep as the insertion point / the end of the range, inside the same wrappers",
          props=P)
+
+S3 = ["0 <= depth", "depth <= from_.depth", "depth <= to.depth", "start.depth == from_.depth", "end.depth == to.depth",
+      "all_(0, depth + 1, lambda k: rp_node(start, k) == rp_node(end, k))"]
+V3 = ("(dvalid(rp_node(from_, 0)) and not rp_node(from_, 0).type.is_text and dvalid(rp_node(to, 0)) and not rp_node(to, 0).type.is_text"
+      " and dvalid(rp_node(start, 0)) and not rp_node(start, 0).type.is_text and dvalid(rp_node(end, 0)) and not rp_node(end, 0).type.is_text)")
+contract(FR, "replace_three_way", {"from_": "ResolvedPos", "start": "ResolvedPos", "end": "ResolvedPos", "to": "ResolvedPos", "depth": "int"}, returns="Fragment",
+         requires=S3,
+         may_raise={"ReplaceError": "True"},
+         # for positions in deeply valid trees (the document, and the prepared slice node), every node of the result is deeply valid
+         ensures=[f"{V3} ==> fvalid(result.content)"],
+         decreases="from_.depth + to.depth - 2 * depth",
+         calls_func={"add_range": [("rp-dvalid", ["from_", "depth"]), ("rp-dvalid", ["to", "depth"]), ("rp-dvalid", ["start", "depth"]), ("rp-dvalid", ["end", "depth"])],
+                     "joinable": [("rp-dvalid", ["from_", "depth + 1"]), ("rp-dvalid", ["end", "depth + 1"])]},
+         uses=["pre-nonneg"],
+         locals={"content": "list[Node]", "open_start": "opt[Node]", "open_end": "opt[Node]"},
+         props=P + ["C02"])
 
 SAME = "all_(0, depth + 1, lambda k: rp_node(from_, k) == rp_node(to, k))"
 # the hypothesis of C01: the document is deeply valid (and a real document, not a text node), and the
 # nodes of a closed slice are themselves deeply valid (for an open slice see replace_three_way)
-VALID_IN = "(dvalid(rp_node(from_, 0)) and not rp_node(from_, 0).type.is_text and implies(slice.open_start == 0 and slice.open_end == 0, fvalid(slice.content.content)))"
+VALID_IN = ("(dvalid(rp_node(from_, 0)) and not rp_node(from_, 0).type.is_text and implies(slice.open_start == 0 and slice.open_end == 0, fvalid(slice.content.content))"
+            " and prep_valid(slice, rp_node(from_, 0), from_.pos))")
 contract(FR, "replace_outer", {"from_": "ResolvedPos", "to": "ResolvedPos", "slice": "Slice", "depth": "int"}, returns="Node",
          requires=["0 <= depth", "depth <= from_.depth - slice.open_start", "depth <= to.depth - slice.open_end", f"not ({GUARD})", SAME],
          may_raise={"ReplaceError": "True", "ValueError": "True"},
